@@ -21,6 +21,8 @@ def run(ctx):
     ctx.rule("R17.i", "__setstate__, interpreted abstractly on a saved watcher table in which one watcher is listed under two parameters next to a second watcher: every saved watcher is "
                       "re-created exactly once (the same new object wherever the old one was listed -- batched dispatch tells watchers apart by identity), in the saved order, bound to the copy, "
                       "with a method-caller callback rebuilt for the copy and a foreign callback kept", floor=1)
+    ctx.rule("R17.j", "copy-only hooks share nothing: every __deepcopy__ / __copy__ defined in param or numbergen puts into the new object only values that went through copy.deepcopy "
+                      "(or constants); on the pinned tree there is none, so deepcopy and pickle both go through __getstate__ / __setstate__ and cannot disagree", floor=1)
     ctx.rule("R17.f", "a copy starts outside any batch/trigger scope of the original: the transient dispatcher state (parameters_state) is reset after the saved attributes "
                       "were restored, or is excluded from the saved state", floor=1)
     ctx.rule("R17.g", "get_all_slots (used by Parameterized.__getstate__ for slot-held attributes) returns the slots of the class itself and of every base, "
@@ -257,6 +259,47 @@ def run(ctx):
         ctx.fail("R17.g", gas, gas.node, "get_all_slots of a class Leaf(Mid(Base)) with own slots [l1, l2] and inherited [b1] returns %s: slot-held attributes of %s are not saved by "
                                          "__getstate__ and are missing from copies" % (got, "the class itself" if got is not None and "l1" not in got else "a base"),
                  key=gas.qualname + "::incomplete-slots", input="class with its own __slots__; deepcopy/pickle drops the slot-held attribute")
+
+    # ---------------------------------------------------------------- R17.j
+    hooks_ = [g for g in ctx.repo.all_funcs() if g.name in ("__deepcopy__", "__copy__") and g.cls is not None]
+    if not hooks_:
+        ctx.ok("R17.j", "param.parameterized.Parameter", None, "no class defines __deepcopy__ or __copy__: copies and pickles are both made from __getstate__ / __setstate__")
+    for g in hooks_:
+        if g.name == "__copy__":
+            ctx.info("R17.j", g, g.node, "a shallow-copy hook (copy.copy is not part of the property)")
+            continue
+        fresh, shared = set(), {g.params[0]}
+        changed = True
+        order = [st for st in ast.walk(g.node) if isinstance(st, ast.Assign)]
+        order.sort(key=lambda st: (st.lineno, st.col_offset))
+        for st in order:
+            is_deep = isinstance(st.value, ast.Call) and norm(st.value.func) in ("copy.deepcopy", "deepcopy")
+            is_new = isinstance(st.value, ast.Call) and norm(st.value.func).endswith("__new__")
+            uses_shared = any(isinstance(x, ast.Name) and x.id in shared for x in ast.walk(st.value))
+            for t in st.targets:
+                if isinstance(t, ast.Name):
+                    if is_deep or is_new or isinstance(st.value, ast.Constant):
+                        fresh.add(t.id)
+                        shared.discard(t.id)
+                    elif uses_shared:
+                        shared.add(t.id)
+                        fresh.discard(t.id)
+        leaks = []
+        for st in order:
+            for t in st.targets:
+                if isinstance(t, (ast.Subscript, ast.Attribute)) and isinstance(t.value, ast.Name) and t.value.id in fresh:
+                    if any(isinstance(x, ast.Name) and x.id in shared for x in ast.walk(st.value)) and not (isinstance(st.value, ast.Call) and norm(st.value.func) in ("copy.deepcopy", "deepcopy")):
+                        leaks.append(st)
+        for c in ast.walk(g.node):
+            if isinstance(c, ast.Call) and norm(c.func) == "setattr" and len(c.args) == 3 and isinstance(c.args[0], ast.Name) and c.args[0].id in fresh \
+                    and any(isinstance(x, ast.Name) and x.id in shared for x in ast.walk(c.args[2])):
+                leaks.append(c)
+        if leaks:
+            ctx.fail("R17.j", g, leaks[0], "%s.__deepcopy__ puts `%s` into the copy without deep-copying it: the copy shares that object with the original (in-place changes leak both ways), "
+                                           "and a pickle round trip, which does not use this hook, behaves differently" % (g.cls.name, norm(leaks[0])[:70]), key=g.qualname + "::shares-state",
+                     input="obj.param.x.default = [1]; c = copy.deepcopy(obj); c.param.x.default.append(2) -> visible on obj")
+        else:
+            ctx.ok("R17.j", g, g.node, "every value stored into the copy went through copy.deepcopy")
 
     # ---------------------------------------------------------------- R17.h
     from engine.absint import Interp, Obj, Unsupported
